@@ -35,6 +35,19 @@ Definition solves (x : Z) (sys : list (Z * Z)) : Prop :=
   Forall (fun rm => cong (snd rm) x (fst rm)) sys.
 Definition lcm_list (ms : list Z) : Z := fold_left Z.lcm ms 1.
 
+(** What crt may return for the system [sys] of pairs (remainder, modulus): a solution to which
+    every solution is congruent modulo the lcm of the moduli (and which lies in [0, lcm) when
+    [reduced] holds), or `no solution` only if there is none; never an error. *)
+Definition crt_post (o : res (option Z)) (reduced : Prop) (sys : list (Z * Z)) : Prop :=
+  match o with
+  | Ok (Some x) =>
+      solves x sys /\
+      (forall y, solves y sys -> cong (lcm_list (map snd sys)) y x) /\
+      (reduced -> 0 <= x < lcm_list (map snd sys))
+  | Ok None => forall x, ~ solves x sys
+  | _ => False
+  end.
+
 (** Falling factorial n (n-1) ... (n-k+1) and factorial. *)
 Fixpoint ffact (n : Z) (k : nat) : Z :=
   match k with O => 1 | S k' => ffact n k' * (n - Z.of_nat k') end.
@@ -78,6 +91,9 @@ Definition mobius_of (l : list (Z * Z)) : Z :=
 
 (** Polygonal numbers. *)
 Definition polygonal (s n : Z) : Z := ((s - 2) * n * n - (s - 4) * n) / 2.
+
+(** twice the polygonal number P(s, k) *)
+Definition poly2 (s k : Z) : Z := (s - 2) * k * k - (s - 4) * k.
 
 (** n is a perfect k-th power of some base >= 2 *)
 Definition perfect_power (n k : Z) : Prop := exists c, 2 <= c /\ c ^ k = n.
